@@ -13,7 +13,8 @@ class C13(TracedProp):
     id = "C13"
     level = "exploration"
     profile = dict(lambda_forms=("float", "matrix_const", "matrix_sym"), beta_forms=("int", "float", "vector_const"),
-                   min_cluster_sizes=(1, 2, 3, 5, 20), limits=(1, 2, 3, 5, 50))
+                   min_cluster_sizes=(1, 2, 3, 5, 20), limits=(1, 2, 3, 5, 50), mmc_values=(0, 0, 1e-3, 2e-2, 0.1),
+                   extreme_scale_p=0.1, scale_exp_range=(-2, 2))
     oracle = staticmethod(oracles.c13_run)
 
     @property
